@@ -313,7 +313,7 @@ def run(ctx):
     cfg = gp.GenCfg(min_len=1, max_len=14, letters=LETTERS, weights=dict(gp.W_ALL), p_res=0.35, max_per_site=3,
                     p_interval=0.3, p_charge=0.3, p_isotope=0.2, p_static=0.25, p_labile=0.25, p_unknown=0.2, p_mult=0.15)
     import copy as _copy
-    for _ in range(ctx.n(10000, 400000)):
+    for _ in range(ctx.n(25000, 400000)):
         p = gp.gen_pep(ctx.rng, cfg)
         if ctx.rng.random() < 0.2:
             # a position that carries the same modification twice next to a different one ([A][B][A])
